@@ -29,6 +29,11 @@ class Refuse(Exception):
     pass
 
 
+def _san(t):
+    """a refusal reason inside a Coq comment: no comment brackets, no quotes (a quote starts a string even inside a comment)"""
+    return t.replace("*", "x").replace("(", "[").replace(")", "]").replace('"', "'")
+
+
 def strip_doc(body):
     body = list(body)
     while body and isinstance(body[0], ast.Expr) and isinstance(body[0].value, ast.Constant) and isinstance(body[0].value.value, str):
@@ -275,7 +280,7 @@ def main():
     except Refuse as r:
         refused = str(r)
         snap = open(FALLBACK_FILE).read().replace("Definition refused : bool := false.", "Definition refused : bool := true.")
-        text = f"(* REFUSED by the translator: {refused[:160]} - the last verified translation (harness/IOGen.fallback.v) stands in *)\n" + snap
+        text = f"(* REFUSED by the translator: {_san(refused[:160])} - the last verified translation (harness/IOGen.fallback.v) stands in *)\n" + snap
     try:
         old = open(out_path).read()
     except FileNotFoundError:
